@@ -22,9 +22,11 @@ TMAX, TCOUNT = 4.0, 9
 TOL_TREE = 1e-5               # clause 1, absolute, on S, I, R (DESIGN: 4e-8 measured on trees, 0.1 on the 4-cycle)
 CONTROL_MIN = 1e-2            # the non-tree control must deviate by at least this much
 TOL_LIMIT = 1e-6              # clauses 3, 4: times N
+TOL_PAIR = 1e-5               # clause 4, times N: two independently integrated solutions through an exponentially growing phase
+TOL_PAIR_ADAMS = 1e-4
 TOL_ADAMS = 2e-5              # same, for the entry points that integrate with vode/adams at its default rtol = 1e-6
 ADAMS = ("SIS_pair_based", "SIS_heterogeneous_pairwise")   # source: analytic.py uses _my_odeint_ for these two systems
-S_FLOOR = 0.01                # clause 4: comparison stops where S(t) <= S_FLOOR*N (singular point of the closures)
+S_FLOOR = 1e-3                # clause 4: comparison stops where S(t) <= S_FLOOR*N (singular point of the closures)
 TOL_FINAL = 1e-6              # clause 5, on R/N
 
 SG = {}                       # run name -> SpecGraph (filled before the pool forks)
@@ -616,7 +618,9 @@ def families(table):
 
 
 def c4_task(task):
-    """task: family X, n, key (w, g, tau, 0), scenarios (mode, seeds, rec, rho) common to both signatures"""
+    """gamma = 0.  task: family X, n, key (w, g, tau, 0), scenarios (mode, seeds, rec, rho) common to both
+    signatures.  Rows are dicts: mode, seeds, rho, dev, compared (number of report times compared), truncated,
+    errs {entry: message}, nonfinite (None / "generic" / "limit"), nontrivial"""
     x, n, key = task["family"], task["n"], task["key"]
     G = graph_of_key(n, key, True)
     tau = key[2] * RATE_UNIT
@@ -626,6 +630,8 @@ def c4_task(task):
     for (mode, seeds, rec, rho) in task["scenarios"]:
         if weighted_graph and not mode.endswith("/weighted"):
             continue
+        row = {"mode": mode, "seeds": seeds, "rho": rho, "dev": float("inf"), "compared": 0, "truncated": False,
+               "errs": None, "nonfinite": None, "nontrivial": False}
         out = {}
         errs = {}
         for nm in ("SIS_" + x, "SIR_" + x):
@@ -634,31 +640,31 @@ def c4_task(task):
             except Exception as ex:
                 errs[nm] = "%s: %s" % (type(ex).__name__, str(ex)[:100])
         if errs:
-            rows.append((mode, seeds, rho, float("inf"), errs, False))
+            row["errs"] = errs
+            rows.append(row)
             continue
         S1 = np.asarray(out["SIS_" + x][1], dtype=float)
         S2 = np.asarray(out["SIR_" + x][1], dtype=float)
         if not _finite(S1, S2):
-            kind = "nonfinite-generic"
+            row["nonfinite"] = "generic"
             try:
                 r1 = call_graph_entry("SIS_" + x, G, tau, 1.0, mode, nodes, seeds, rec, rho)
                 r2 = call_graph_entry("SIR_" + x, G, tau, 1.0, mode, nodes, seeds, rec, rho)
                 if _finite(r1[1], r2[1]):
-                    kind = "nonfinite-limit"
+                    row["nonfinite"] = "limit"
             except Exception:
                 pass
-            rows.append((mode, seeds, rho, float("inf"), {"_": kind}, False))
-        elif S1.shape != S2.shape:
-            rows.append((mode, seeds, rho, float("inf"), None, False))
-        else:
-            # the closures divide by [S]; once S reaches 0 in finite time the integrators run through a singular
-            # point and neither output solves the model any more: compare on the prefix of the report grid where
+        elif S1.shape == S2.shape:
+            # the closures divide by [S]; where S reaches 0 in finite time the integrators run through a singular
+            # point and neither output solves the model any more: compare on the prefix of the report grid on which
             # both S(t) > S_FLOOR * N
             ok = (S1 > S_FLOOR * n) & (S2 > S_FLOOR * n)
             m = len(S1) if ok.all() else int(np.argmin(ok))
-            dev = float(np.abs(S1[:m] - S2[:m]).max()) if m else 0.0
-            rows.append((mode, seeds, rho, dev, ({"_": "singular"} if m < len(S1) else None) if dev <= 0 or m == len(S1) else ({"_": "singular-dev"}),
-                         bool(m > 1 and S1[m - 1] < S1[0] - 1e-6)))
+            row["compared"] = m
+            row["truncated"] = m < len(S1)
+            row["dev"] = float(np.abs(S1[:m] - S2[:m]).max()) if m else 0.0
+            row["nontrivial"] = bool(m > 1 and S1[m - 1] < S1[0] - 1e-6)
+        rows.append(row)
     return {"family": x, "n": n, "key": key, "rows": rows}
 
 
@@ -780,9 +786,20 @@ def c5_task(d):
     out.update(limit=lim, horizon=T, I_end=Iend)
     try:
         a_def = float(ar(100))
-        a_big = float(ar(ITS))
-        a_big2 = float(ar(2 * ITS))
-        out.update(ar_default=a_def, ar=a_big, converged=bool(abs(a_big - a_big2) < 1e-10))
+        its = ITS
+        while True:
+            try:
+                a_big = float(ar(its))
+                a_big2 = float(ar(its // 2))
+                break
+            except (OverflowError, ZeroDivisionError) as ex:
+                # theta underflows towards 0 and the k=0 term k*Pk[k]*theta**(k-1) of the library's own psihatPrime
+                # overflows: an artefact of asking for very many iterations, not of the relation under check
+                out["its_reduced"] = "%s with number_its=%d" % (type(ex).__name__, its)
+                its //= 4
+                if its < 100:
+                    raise
+        out.update(ar_default=a_def, ar=a_big, its=its, converged=bool(abs(a_big - a_big2) < 1e-10))
     except Exception as ex:
         out["ar_err"] = "%s: %s" % (type(ex).__name__, str(ex)[:100])
     return out
